@@ -784,6 +784,16 @@ func (c03Checker) Run(tp *Tapes, opt RunOpt) *Outcome {
 				after = probeSnapshot(src.Use.Target)
 			}
 			tres := twin.do(i, op, false)
+			if src.Use != nil && src.Use.Target == "random" && !src.Use.Control {
+				// documented to depend on randomness: keep it out of the log and the comparison
+				if bannedNow := c03TargetBanned(m.tags, m.filts, src.Use); !bannedNow {
+					for _, r := range []*c03Res{res, tres} {
+						if r.Created {
+							r.Out, r.ExecErr, r.Gets = "(random)", "", nil
+						}
+					}
+				}
+			}
 			for k, v := range sys.w.Fired {
 				out.Faults[k] += v
 			}
